@@ -24,12 +24,166 @@ pub struct TreeSpec {
     pub parents: Vec<u16>,
     /// 0 natural (parents first), 1 reversed (children first), 2.. shuffled with this seed
     pub order: u32,
+    /// Some(k): a root does not refer to itself but carries the plain number k in the reference
+    /// column (the column then mixes plain and bound values, all plain ones being equal)
+    #[serde(default)]
+    pub root_plain: Option<u16>,
+}
+
+/// Two stores in one directory pack: A sorted on a unique key, B with a column bound to the
+/// position of entries of A (the referenced store added first, as the creator requires).
+#[derive(Serialize, Deserialize, Clone, Debug)]
+pub struct CrossSpec {
+    pub n_a: u16,
+    /// 0 insert A in key order, 1 reversed, 2.. shuffled with this seed
+    pub order: u32,
+    /// B's entries: which entry of A (by insertion number, pick) each refers to
+    pub targets: Vec<u16>,
+    /// B sorted on its reference column
+    pub b_sorted: bool,
+    /// only entries of A inserted among the first 200 are referenced (their provisional
+    /// positions fit one byte whatever their final position)
+    pub early_targets: bool,
 }
 
 #[derive(Serialize, Deserialize, Clone, Debug)]
 pub enum C15Case {
     Dir(Case),
     Tree(TreeSpec),
+    Cross(CrossSpec),
+}
+
+fn run_cross(t: &CrossSpec, ctx: &Ctx, info: &mut CaseInfo) -> Result<(), Failure> {
+    let n = t.n_a.max(1) as usize;
+    // insertion k of A carries key keys[k]; final position of insertion k = keys[k] (keys are a permutation of 0..n)
+    let mut keys: Vec<usize> = (0..n).collect();
+    match t.order {
+        0 => {}
+        1 => keys.reverse(),
+        seed => {
+            let mut x = seed as u64 | 1;
+            for i in (1..n).rev() {
+                x = splitmix(x);
+                keys.swap(i, (x % (i as u64 + 1)) as usize);
+            }
+        }
+    }
+    let sch_a = schema::Schema::new(schema::CommonProperties::new(vec![schema::Property::new_uint("c0"), schema::Property::new_uint("c1")]), vec![], Some(vec!["c0"]));
+    let mut a = Box::new(EStore::new(sch_a, None));
+    let mut handles_a = vec![];
+    for (k, key) in keys.iter().enumerate() {
+        let mut hm: HashMap<&'static str, jbk::Value> = HashMap::new();
+        hm.insert("c0", jbk::Value::Unsigned(*key as u64 * 3 + 7));
+        hm.insert("c1", jbk::Value::Unsigned(k as u64));
+        handles_a.push(a.add_entry(EntryType::new_from_schema(&a.schema, None, hm)));
+    }
+    let sch_b = schema::Schema::new(
+        schema::CommonProperties::new(vec![schema::Property::new_uint("c0"), schema::Property::new_uint("c1")]),
+        vec![],
+        if t.b_sorted { Some(vec!["c0", "c1"]) } else { None },
+    );
+    let mut b = Box::new(EStore::new(sch_b, None));
+    let lim = if t.early_targets { n.min(200) } else { n };
+    let targets: Vec<usize> = t.targets.iter().map(|s| pick(*s, lim)).collect();
+    for (j, tg) in targets.iter().enumerate() {
+        let mut hm: HashMap<&'static str, jbk::Value> = HashMap::new();
+        hm.insert("c0", jbk::Value::UnsignedWord(handles_a[*tg].clone().into()));
+        hm.insert("c1", jbk::Value::Unsigned(j as u64));
+        b.add_entry(EntryType::new_from_schema(&b.schema, None, hm));
+    }
+    let mut dp = jbk::creator::DirectoryPackCreator::new(jbk::PackId::from(0), crate::gen::vendor(), Default::default());
+    // the referenced store is added first: a store's column widths are fixed when it is finalised,
+    // in the order the stores were added, from the positions known at that moment (adding the
+    // referencing store first makes creation stop on an assertion for some inputs on the pinned
+    // tree; the property speaks of references among the entries of a store, so that order is not
+    // demanded here — DESIGN §14)
+    let sa = dp.add_entry_store(a);
+    let sb = dp.add_entry_store(b);
+    dp.create_index("a", Default::default(), 0.into(), sa, (n as u32).into(), jbk::EntryIdx::from(0).into());
+    dp.create_index("b", Default::default(), 0.into(), sb, (targets.len() as u32).into(), jbk::EntryIdx::from(0).into());
+    let path = ctx.path("cross.jbkd");
+    let mut file = std::fs::OpenOptions::new().read(true).write(true).create(true).truncate(true).open(&path).unwrap();
+    match dp.finalize() {
+        Ok(f) => {
+            if let Err(e) = f.write(&mut file) {
+                fail!("dir-write-error", "{e}");
+            }
+        }
+        Err(e) => fail!("dir-finalize-error", "{e}"),
+    }
+    drop(file);
+    let dpk = match open_directory_pack(&path) {
+        Ok(d) => d,
+        Err(e) => fail!("dir-unreadable", "{e}"),
+    };
+    let estorage = dpk.create_entry_storage();
+    let vstorage = dpk.create_value_storage();
+    let oa = match open_index(&dpk, &|ix| ix.get_store(&estorage), &vstorage, "a") {
+        Ok(o) => o,
+        Err(e) => fail!("store-unreadable", "{e}"),
+    };
+    let ob = match open_index(&dpk, &|ix| ix.get_store(&estorage), &vstorage, "b") {
+        Ok(o) => o,
+        Err(e) => fail!("store-unreadable", "{e}"),
+    };
+    ensure!(oa.count() == n && ob.count() == targets.len(), "window-count", "cross: indexes expose {} and {} entries, {n} and {} written", oa.count(), ob.count(), targets.len());
+    let get = |oi: &OpenIndex, p: usize, what: &str| -> Result<(u64, u64), Failure> {
+        let (_, vals) = match oi.entry(p as u32) {
+            Ok(Some(e)) => e,
+            other => fail!("entry-error", "cross {what} entry {p}: {:?}", other.map(|o| o.is_some())),
+        };
+        match (vals.get("c0"), vals.get("c1")) {
+            (Some(DVal::U(x)), Some(DVal::U(y))) => Ok((*x, *y)),
+            other => fail!("value-kind-mismatch", "cross {what} entry {p}: {other:?}"),
+        }
+    };
+    // A: entry at final position p carries key 3p+7 and the insertion number whose key is p
+    let mut final_of = vec![usize::MAX; n];
+    for p in 0..n {
+        let (c0, c1) = get(&oa, p, "A")?;
+        ensure!(c0 == p as u64 * 3 + 7, "cross-a-order", "store A position {p} holds key {c0}, expected {}", p * 3 + 7);
+        ensure!((c1 as usize) < n && keys[c1 as usize] == p, "unsigned-value-mismatch", "store A position {p}: insertion number {c1}");
+        final_of[c1 as usize] = p;
+    }
+    for (k, h) in handles_a.iter().enumerate() {
+        let got = h.get().into_u32() as usize;
+        ensure!(got == final_of[k], "bound-final-position", "store A: handle of insertion #{k} reports position {got}, final position is {}", final_of[k]);
+    }
+    // B: every stored reference is the final position in A of the entry it was bound to
+    let mut seen = vec![false; targets.len()];
+    let mut prev: Option<(u64, u64)> = None;
+    for p in 0..targets.len() {
+        let (c0, c1) = get(&ob, p, "B")?;
+        let j = c1 as usize;
+        ensure!(j < targets.len() && !seen[j], "cross-b-not-a-permutation", "store B position {p} carries insertion number {c1}");
+        seen[j] = true;
+        ensure!(
+            c0 as usize == final_of[targets[j]],
+            "cross-store-reference-not-final-position",
+            "store B entry {p} (insertion #{j}) stores {c0}; the entry of store A it is bound to (insertion #{}) is finally at {}",
+            targets[j],
+            final_of[targets[j]]
+        );
+        if t.b_sorted {
+            if let Some(pv) = prev {
+                ensure!(pv < (c0, c1), "cross-b-not-sorted", "store B entries {} and {p} not in increasing order", p - 1);
+            }
+            prev = Some((c0, c1));
+        } else {
+            ensure!(j == p, "cross-b-order", "unsorted store B position {p} holds insertion #{j}");
+        }
+    }
+    if keys.iter().enumerate().any(|(k, key)| k != *key) {
+        info.class("referenced-entry-moved");
+    }
+    info.class("cross-store-reference");
+    if t.early_targets && n > 300 {
+        info.class("cross-store:early-targets-in-big-store");
+    }
+    info.class(if n >= 2000 { "cross-store:A>=2000" } else { "cross-store:A<2000" });
+    info.evals = (n + targets.len()) as u64;
+    let _ = std::fs::remove_file(&path);
+    Ok(())
 }
 
 fn run_tree(t: &TreeSpec, ctx: &Ctx, info: &mut CaseInfo) -> Result<(), Failure> {
@@ -74,7 +228,10 @@ fn run_tree(t: &TreeSpec, ctx: &Ctx, info: &mut CaseInfo) -> Result<(), Failure>
     let mut handles: Vec<(usize, jbk::Bound<jbk::EntryIdx>)> = vec![];
     for node in &order {
         let mut hm: HashMap<&'static str, jbk::Value> = HashMap::new();
-        hm.insert("c0", jbk::Value::UnsignedWord(bound_of[parent[*node]].clone().into()));
+        match t.root_plain {
+            Some(k) if parent[*node] == *node => hm.insert("c0", jbk::Value::Unsigned(k as u64)),
+            _ => hm.insert("c0", jbk::Value::UnsignedWord(bound_of[parent[*node]].clone().into())),
+        };
         hm.insert("c1", jbk::Value::Unsigned(1000 + *node as u64)); // the name: unique
         hm.insert("c2", jbk::Value::Unsigned(*node as u64)); // the identity
         let e = EntryType::new_from_schema_idx(&es.schema, vows[*node].take().unwrap(), None, hm);
@@ -124,6 +281,14 @@ fn run_tree(t: &TreeSpec, ctx: &Ctx, info: &mut CaseInfo) -> Result<(), Failure>
     for (p, (c0, c1, c2)) in rows.iter().enumerate() {
         let node = *c2 as usize;
         ensure!(*c1 == 1000 + node as u64, "unsigned-value-mismatch", "tree entry {p}: name {c1} for node {node}");
+        if let (Some(k), true) = (t.root_plain, parent[node] == node) {
+            ensure!(*c0 == k as u64, "unsigned-value-mismatch", "tree entry {p} (root node {node}): plain value {k} in the reference column reads back as {c0}");
+            if p > 0 {
+                let prev = (rows[p - 1].0, rows[p - 1].1);
+                ensure!(prev < (*c0, *c1), "tree-not-sorted", "tree entries {} and {p} are not in increasing key order: {:?} then {:?}", p - 1, prev, (c0, c1));
+            }
+            continue;
+        }
         ensure!(
             *c0 as usize == pos_of[parent[node]],
             "tree-reference-not-final-position",
@@ -156,6 +321,9 @@ fn run_tree(t: &TreeSpec, ctx: &Ctx, info: &mut CaseInfo) -> Result<(), Failure>
         info.class("referenced-entry-moved");
     }
     info.class("tree:reference-in-sort-key");
+    if t.root_plain.is_some() && (0..n).any(|i| parent[i] != i) {
+        info.class("tree:plain-and-bound-values-in-one-column");
+    }
     info.evals = (3 * n as u64).max(1);
     let _ = std::fs::remove_file(&path);
     Ok(())
@@ -178,22 +346,43 @@ impl Property for C15 {
 
     fn strategy(tier: Tier) -> BoxedStrategy<C15Case> {
         let tree = (prop::collection::vec(prop_oneof![2 => any::<u16>(), 1 => Just(u16::MAX), 1 => Just(0u16)], 1..120), prop_oneof![Just(0u32), Just(1u32), 2u32..1000])
-            .prop_map(|(parents, order)| C15Case::Tree(TreeSpec { parents, order }));
+            .prop_map(|(parents, order)| {
+                let root_plain = match order % 3 {
+                    0 => None,
+                    1 => Some(0),
+                    _ => Some((order % 700) as u16),
+                };
+                C15Case::Tree(TreeSpec { parents, order, root_plain })
+            });
+        let cross = (
+            prop_oneof![3 => 1u16..600, 2 => 2000u16..9000, 1 => 20000u16..30000],
+            prop_oneof![Just(0u32), Just(1u32), 2u32..1000],
+            prop::collection::vec(any::<u16>(), 0..60),
+            any::<bool>(),
+            any::<bool>(),
+        )
+            .prop_map(|(n_a, order, targets, b_sorted, early_targets)| C15Case::Cross(CrossSpec { n_a, order, targets, b_sorted, early_targets }));
         prop_oneof![
-            9 => Self::dir_strategy(tier).prop_map(C15Case::Dir),
-            1 => tree,
+            18 => Self::dir_strategy(tier).prop_map(C15Case::Dir),
+            2 => tree,
+            1 => cross,
         ]
         .boxed()
     }
 
     fn fixed_cases(_tier: Tier) -> Vec<C15Case> {
         // chains and bushy trees, children inserted first
-        let chain = |n: usize| TreeSpec { parents: (0..n).map(|i| if i == 0 { u16::MAX } else { ((i as u32 - 1) * 65536 / (i as u32 + 1) + 1) as u16 }).collect(), order: 1 };
+        let chain = |n: usize| TreeSpec { parents: (0..n).map(|i| if i == 0 { u16::MAX } else { ((i as u32 - 1) * 65536 / (i as u32 + 1) + 1) as u16 }).collect(), order: 1, root_plain: None };
         vec![
             C15Case::Tree(chain(3)),
             C15Case::Tree(chain(6)),
-            C15Case::Tree(TreeSpec { parents: vec![u16::MAX, 0, 0, 20000, 20000, 40000, 40000, 50000, 60000], order: 1 }),
-            C15Case::Tree(TreeSpec { parents: vec![u16::MAX, 0, 0, 20000, 20000, 40000, 40000, 50000, 60000], order: 7 }),
+            C15Case::Tree(TreeSpec { parents: vec![u16::MAX, 0, 0, 20000, 20000, 40000, 40000, 50000, 60000], order: 1, root_plain: None }),
+            C15Case::Tree(TreeSpec { parents: vec![u16::MAX, 0, 0, 20000, 20000, 40000, 40000, 50000, 60000], order: 7, root_plain: None }),
+            C15Case::Tree(TreeSpec { parents: vec![u16::MAX, 0, 0, 20000, 20000, 40000, 40000, 50000, 60000], order: 7, root_plain: Some(0) }),
+            C15Case::Tree(TreeSpec { parents: vec![u16::MAX, u16::MAX, 0, 20000, 20000, 40000, 40000, 50000, 60000], order: 1, root_plain: Some(0) }),
+            C15Case::Cross(CrossSpec { n_a: 1000, order: 1, targets: vec![0, 100, 65535, 3, 40000], b_sorted: false, early_targets: true }),
+            C15Case::Cross(CrossSpec { n_a: 25000, order: 5, targets: vec![0, 100, 65535, 3, 40000], b_sorted: true, early_targets: false }),
+            C15Case::Cross(CrossSpec { n_a: 25000, order: 9, targets: vec![7, 30000], b_sorted: false, early_targets: true }),
         ]
     }
 
@@ -238,7 +427,7 @@ impl C15 {
     }
 
     fn required_classes_() -> Vec<&'static str> {
-        vec!["tree:reference-in-sort-key", "tree-order:children-first", "kind:sref", "has-refs", "ref:forward", "ref:backward", "ref:self", "ref:chain", "sorted", "referenced-entry-moved", "entries:thousands", "ref:constant-column"]
+        vec!["cross-store-reference", "cross-store:A>=2000", "tree:plain-and-bound-values-in-one-column", "tree:reference-in-sort-key", "tree-order:children-first", "kind:sref", "has-refs", "ref:forward", "ref:backward", "ref:self", "ref:chain", "sorted", "referenced-entry-moved", "entries:thousands", "ref:constant-column"]
     }
 
     fn run_(case: &C15Case, ctx: &Ctx) -> CaseResult {
@@ -248,6 +437,12 @@ impl C15 {
                 run_tree(t, ctx, &mut info)?;
                 info.nontrivial = info.classes.iter().any(|c| c == "referenced-entry-moved");
                 info.key = hash_str(&format!("tree|{:?}|{}", t.parents, t.order));
+                return Ok(info);
+            }
+            C15Case::Cross(t) => {
+                run_cross(t, ctx, &mut info)?;
+                info.nontrivial = info.classes.iter().any(|c| c == "referenced-entry-moved");
+                info.key = hash_str(&format!("cross|{}|{}|{:?}|{}|{}", t.n_a, t.order, t.targets, t.b_sorted, t.early_targets));
                 return Ok(info);
             }
             C15Case::Dir(c) => c,
